@@ -110,6 +110,10 @@ def gen(rng, tier, idx):
     if rng.chance(15):
         # ... or at an absolute depth around a round number (where a sized buffer or counter would wrap)
         scn["prefix_steps"] = rng.choice([31, 32, 33, 63, 64, 127, 128, 199, 200, 201, 255, 256, 257, 511, 512, 999, 1000, 1001, 1023, 1024, 1025]) + rng.range(-1, 2)
+    if scn.get("family") == "long-listing" and len(scn.get("script") or "") >= 2 * 990 and rng.chance(60):
+        # sessions long enough to get there: start the walk right at a four-digit depth
+        scn["prefix_steps"] = rng.choice([998, 999, 1000, 1001, 1002])
+        scn["walk"] = [["rewind"]] * rng.range(1, 3) + scn["walk"]
     scn["regime"] = "clean" if rng.chance(80) else "fault"
     # the black-box observers quadruple the number of delivered lines; half of the cases rely on the white-box probe alone
     scn["observe"] = bool(scn.get("observe", True)) and rng.chance(50)
